@@ -72,7 +72,7 @@ def run():
     _fixed_points(chk)
     # recorded histories of two identical sessions of programs beyond the bounds, validated against ISCore
     from .. import trace_core
-    trace_core.validate(chk, 3000 if chk.quick else 40000, second=1.0)
+    trace_core.validate(chk, 3000 if chk.quick else 20000, second=1.0)
     chk.assumptions += ["deterministic tests; leaf values from the core pools (representation fixed points of richer "
                         "values are exercised by C01/C12)"]
     return chk.finish(
